@@ -4,6 +4,7 @@ pub mod c04;
 pub mod c05;
 pub mod c07;
 pub mod c09;
+pub mod c10;
 pub mod c12;
 pub mod c13;
 
@@ -25,6 +26,7 @@ pub fn dispatch(ctx: &Ctx, replay: Option<&str>) -> i32 {
         "C05" => p!(c05),
         "C07" => p!(c07),
         "C09" => p!(c09),
+        "C10" => p!(c10),
         "C12" => p!(c12),
         "C13" => p!(c13),
         other => {
